@@ -23,7 +23,20 @@ def _execute_world(job):
     from harness.impl import sim_impl
 
     world, seed = job
-    case, obs = sim_impl.Run(world, seed=seed).execute()
+    try:
+        case, obs = sim_impl.Run(world, seed=seed).execute()
+    except Exception as e:  # keep the origin of the exception across the process boundary
+        import os
+        import traceback
+
+        frames = traceback.extract_tb(e.__traceback__)
+        repo = str(common.REPO.resolve())
+        inner = frames[-1] if frames else None
+        in_repo = bool(inner) and os.path.realpath(inner.filename).startswith(repo + os.sep)
+        return {"world": world, "seed": seed, "harness_exc": {
+            "type": type(e).__name__, "repr": repr(e)[:300], "in_repo": in_repo,
+            "where": f"{os.path.relpath(os.path.realpath(inner.filename), repo)}:{inner.lineno} in {inner.name}" if in_repo else (f"{inner.filename}:{inner.lineno}" if inner else "?"),
+            "traceback": traceback.format_exc()[-3000:]}}
     return {"world": world, "seed": seed, "case": case, "obs": obs}
 
 
@@ -50,9 +63,21 @@ def run_worlds(chk, prop, n, streams=("regular",), seed_tag="e2e"):
         jobs.append((sim_gen.gen_world(rng, stream), chk.seed * 100003 + i))
     procs = int(os.environ.get("VERIF_E2E_PROCS", "0")) or min(8, max(1, (os.cpu_count() or 2) // 2))
     if procs <= 1 or n < 32:
-        return [_execute_world(j) for j in jobs]
-    with mp.get_context("fork").Pool(procs) as pool:
-        return pool.map(_execute_world, jobs, chunksize=max(1, n // (procs * 8)))
+        out = [_execute_world(j) for j in jobs]
+    else:
+        with mp.get_context("fork").Pool(procs) as pool:
+            out = pool.map(_execute_world, jobs, chunksize=max(1, n // (procs * 8)))
+    bad = [r for r in out if "harness_exc" in r]
+    if bad:
+        x = bad[0]["harness_exc"]
+        if x["in_repo"]:
+            # the implementation raised while the world was being BUILT (loaders, constructors): on the unchanged
+            # tree it does not, so model and implementation no longer agree on this input
+            raise common.CorrespondenceBroken(
+                f"the implementation raised {x['type']} at {x['where']} while {len(bad)} generated world(s) were set up, where the harness (and the model) expect it to return",
+                {"world": bad[0]["world"], "seed": bad[0]["seed"], "exception": x["repr"], "traceback": x["traceback"]})
+        raise RuntimeError(f"harness failure in a worker process: {x['repr']}\n{x['traceback']}")
+    return out
 
 
 def compare(runs):
